@@ -34,6 +34,9 @@ def run(ctx: Context) -> None:
     ctx.rule('R06.6', "the validity filter dominates publication: invalid polygons are found over the full polygon array, replaced by None with an InvalidPolygonWarning, and the array is made read-only; the mask is derived from it", floor=6)
     ctx.rule('R06.7', "extent slots are (min x, min y, max x, max y) of the x / y handles; the generic geometry is the union of polygons[mask] and bounds its .bounds", floor=10)
     ctx.rule('R06.8', "UGRID faces are built from the normalised face-node table: primary dimension first, fill entries masked on the raw values, then start_index subtracted (shared with C10 R10.1)", floor=10)
+    ctx.rule('R06.10', "every re-implementation of mask / bounds / geometry / strtree / polygons / face_centres in a convention is one whose agreement with the polygons is checked; mask means `has a polygon` everywhere", floor=7)
+    from . import infra as _infra
+    _infra.reviewed_overrides(ctx, 'R06.10')
     from .common import adopt_foundations as _adopt
     _adopt(ctx, 'R06.9', ['order'], floor=60)
     ctx.assume("GEOS is_valid detects self-intersection; numpy nanmin/nanmax/nanmean/pad semantics; shapely.polygons closes rings")
@@ -105,7 +108,9 @@ def run(ctx: Context) -> None:
         m = Matcher(ctx, ug)
         size_st = m.stmt('$sizes = numpy.sum(~numpy.ma.getmaskarray($face_node), axis=1)')
         fn_uses = [n for n in ast.walk(ug.node) if isinstance(n, ast.Name) and n.id == m.name('face_node') and isinstance(n.ctx, ast.Load)] if size_st is not None else []
-        ok = bool(fn_uses) and all('face_node_array' in repr(flow.canon(n)) for n in fn_uses) \
+        # the table the sizes are counted on and the rows are gathered from is the normalised face-node table itself,
+        # unfiltered (a filtered copy has other row numbers than the output array)
+        ok = bool(fn_uses) and all(isinstance(flow.resolve(n), ast.Attribute) and flow.resolve(n).attr == 'face_node_array' for n in fn_uses) \
             and m.has('$rows = numpy.flatnonzero($sizes == $size)')
         ctx.check('R06.2', ok, "a face's vertex count is the number of unmasked entries in its row of the face-node table, and faces are grouped by that count", ug, size_st or ug.node)
 
